@@ -322,6 +322,116 @@ def DIAG(**k):
 '''
 
 
+SQG_MODULE = MODULE + r'''
+_ns = _get_ns("verif.c09")
+lisp_eval("(def local-var 1) (require (quote [basilisp.string :as s]))", "verif.c09")
+def expect(t, inst, counter, x, xs):
+    """what the template denotes: symbols resolved as the documentation says, gensyms as placeholders per template instance"""
+    k = t[0]
+    if k == "sym":
+        kind, text = t[1], t[2]
+        if text.startswith(":"):
+            return ("kw", text[1:])
+        if kind == "core":
+            return ("sym", "basilisp.core", text)
+        if kind == "alias":
+            return ("sym", "basilisp.string", text.split("/")[1])
+        if kind == "special":
+            return ("sym", None, text)
+        return ("sym", "verif.c09", text)
+    if k == "gensym":
+        return ("G", inst, t[1])
+    if k == "unq":
+        return ("val", x)
+    if k == "nested":
+        counter[0] += 1
+        return expect(t[1], counter[0], counter, x, xs)
+    if k == "map":
+        return ("map", [(expect(a, inst, counter, x, xs), expect(b, inst, counter, x, xs)) for a, b in t[1]])
+    items = []
+    for e in t[1]:
+        if e[0] == "splice":
+            items += [("val", v) for v in xs]
+        else:
+            items.append(expect(e, inst, counter, x, xs))
+    return (k, items)
+def match(actual, exp, env):
+    tag = exp[0]
+    if tag == "kw":
+        return isinstance(actual, kw.Keyword) and actual.ns is None and actual.name == exp[1]
+    if tag == "sym":
+        return isinstance(actual, sym.Symbol) and actual.ns == exp[1] and actual.name == exp[2]
+    if tag == "val":
+        return type(actual) is type(exp[1]) and actual == exp[1]
+    if tag == "G":
+        if not (isinstance(actual, sym.Symbol) and actual.ns is None and actual.name.startswith(exp[2] + "_")):
+            return False
+        key = (exp[1], exp[2])
+        if key in env:
+            return env[key] == actual                  # one symbol within a template
+        if any(v == actual for v in env.values()):
+            return False                               # fresh across templates (and across different names)
+        env[key] = actual
+        return True
+    if tag == "vec":
+        return isinstance(actual, vec.PersistentVector) and len(actual) == len(exp[1]) and all(match(a, e, env) for a, e in zip(actual, exp[1]))
+    if tag == "list":
+        if isinstance(actual, (vec.PersistentVector, lset.PersistentSet, lmap.PersistentMap)) or not (actual is None or isinstance(actual, ISeq) or isinstance(actual, llist.PersistentList)):
+            return False
+        items = seq_list(actual) if actual is not None else []
+        return len(items) == len(exp[1]) and all(match(a, e, env) for a, e in zip(items, exp[1]))
+    if tag == "set":
+        if not isinstance(actual, lset.PersistentSet) or len(actual) != len(exp[1]):
+            return False
+        left = list(actual)
+        for e in exp[1]:                               # small sets: first fit (gensym placeholders are tried last)
+            hit = None
+            for a in left:
+                trial = dict(env)
+                if match(a, e, trial):
+                    hit = (a, trial); break
+            if hit is None:
+                return False
+            left.remove(hit[0]); env.clear(); env.update(hit[1])
+        return True
+    if tag == "map":
+        if not isinstance(actual, lmap.PersistentMap) or len(actual) != len(exp[1]):
+            return False
+        for ke, ve in exp[1]:
+            found = [k for k in actual.keys() if match(k, ke, dict(env))]
+            if len(found) != 1 or not match(actual.val_at(found[0]), ve, env):
+                return False
+        return True
+    return False
+def DIAG(**k):
+    xs = [k["c0"], k["c1"]][:k["ln"]]
+    return {"template": SRC, "produced": repr(T(k["x"], llist.list(xs))), "x": k["x"], "xs": xs}
+'''
+
+
+def sq_template_spec(name, tmpl, timeout):
+    from .c09_sq import src as tsrc
+    lsrc = "(fn [x xs] `" + tsrc(tmpl) + ")"
+    mod = SQG_MODULE + f'''
+TMPL = {tmpl!r}
+SRC = {lsrc!r}
+T = lisp_eval(SRC, "verif.c09")
+T_AGAIN = lisp_eval(SRC, "verif.c09")
+'''
+    body = '''    xs = [c0, c1][:ln]
+    got = T(x, llist.list(xs))
+    env = {}
+    if not match(got, expect(TMPL, 0, [0], x, xs), env):
+        return False
+    # the same text read a second time: same shape, and none of its gensyms is one of the first read's
+    env2 = {}
+    got2 = T_AGAIN(x, llist.list(xs))
+    return match(got2, expect(TMPL, 0, [0], x, xs), env2) and not any(a == b for a in env.values() for b in env2.values())'''
+    pre = ["0 <= x <= 2", "0 <= ln <= 2", "0 <= c0 <= 2", "0 <= c1 <= 2", "c0 != c1", "c0 != x", "c1 != x"]
+    return Spec(f"syntax-quote-grammar/{name}", harness("x: int, ln: int, c0: int, c1: int", body, pre=pre, module_code=mod, warm=[]), timeout=timeout,
+                bound=f"template `{tsrc(tmpl)}; unquoted int, spliced seq of <= 2 distinct ints", meta={"kind": "syntax-quote-grammar", "template": tsrc(tmpl)})
+
+
 def syntax_quote_specs(timeout):
     out = []
     sig, pre = "x: int, xs: List[Optional[int]]", ["len(xs) <= 3", "0 <= x <= 3", "all(e is None or 0 <= e <= 3 for e in xs)"]
@@ -384,15 +494,19 @@ def run(rep, tier, seed):
             big = _cn(pat) >= 3 or len(_nm(pat)) >= 4
             specs.append(grammar_spec(pname, pat, f, to * 2 if (quick and big) else to, quick))
     specs += syntax_quote_specs(to)
+    from .c09_sq import generate as sq_generate
+    specs += [sq_template_spec(n_, t_, to) for n_, t_ in sq_generate(seed, 8 if quick else 60)]
     rep.bounds = {"destructuring": f"{len(SEQ_PATTERNS) + len(MAP_PATTERNS)} patterns (depth <= 2) x {forms}; values: vector/list/lazy seq/nil of <= 3 "
                                    "nil/int (one nested), maps with symbolic key presence, nil",
                   "syntax-quote": "4 templates; unquoted int, spliced seq of <= 3; gensyms: same within a template, different between templates and between two reads of the same text"}
-    rep.outside = ["syntax-quote templates are a fixed set", "patterns are a generated sample of the grammar, not all of it", "rest patterns that are themselves patterns (not in the documented vocabulary)"]
+    rep.outside = ["syntax-quote templates: 4 fixed + a generated sample (c09_sq.py), evaluated forms are compared structurally, not executed", "patterns are a generated sample of the grammar, not all of it", "rest patterns that are themselves patterns (not in the documented vocabulary)"]
     rep.trusted += ["crosshair-tool 0.0.110 + z3"]
     rep.extra["explanation"] = ("the oracle for destructuring is the real nth / nthnext / get applied by a 1-line reference per pattern; "
                                 "form and (macroexpand form) are both compiled and compared on the same symbolic values")
 
     def matcher(spec, cex):
+        if spec.meta["kind"] == "syntax-quote-grammar":
+            return {"kind": "syntax-quote-grammar", "template": spec.meta["template"]}
         if spec.meta["kind"] == "destructure-grammar":
             return {"kind": "destructure-grammar", "pattern_src": spec.meta["pattern_src"], "form": spec.meta["form"]}
         return {"kind": spec.meta["kind"], "pattern": spec.meta.get("pattern", "")}
